@@ -8,7 +8,7 @@
    generator, cross-checked by proton counting) and the alternatives of its final atom set.
    "fully parameterised" = some alternative resolves completely: resolve = Some q.
    StatesFF_<ff>.built is by definition FF_<ff>.built, the map C01 proves equal to pdb2pqr's. *)
-From Coq Require Import List Bool ZArith PArith String.
+From Coq Require Import List Bool ZArith PArith String Permutation.
 From PV Require Import Model.ForceField Model.States Proofs.States.
 From PV Require Generated.States Generated.FF_AMBER Generated.StatesFF_AMBER Generated.FF_CHARMM Generated.StatesFF_CHARMM Generated.FF_PARSE Generated.StatesFF_PARSE Generated.FF_PEOEPB Generated.StatesFF_PEOEPB Generated.FF_SWANSON Generated.StatesFF_SWANSON Generated.FF_TYL06 Generated.StatesFF_TYL06.
 Import ListNotations.
@@ -178,15 +178,49 @@ Theorem C02_termini_once : forall o close chains out,
   Forall2 (fun c oc => map rs_d oc = snd c /\ chain_ok close oc) chains out.
 Proof. exact termini_once. Qed.
 
-(* set_termini, ALL chain lists (hidden chain ends included).  FULL statement wanted:
-   Forall (chain_ok close) out.  Proved part: residues preserved in order, N/5' flags on
-   chain heads only, flags respect the residue kind.  Not proved in general: at most one
-   C/3' flag per chain after a split, and the patch count (patches ARE re-applied). *)
-Theorem C02_termini_general_partial : forall o close chains out,
+(* set_termini, ALL chain lists, hidden chain ends (OXT / H3T inside a chain) included.
+   Every resulting chain segment c satisfies
+     seg_ok o c   = flags respect the residue kind /\ the SET of patches of each residue is the
+                    function of its flags (patch_set_ok; the list may repeat a patch) /\
+                    no residue but the head carries an N/5' flag /\
+                    c_ok (rev c): a C/3' flag sits only on the last polymer residue, and only
+                    if no NH2/NME cap follows it
+     seg_full close c = if c is not cyclic: the head is flagged iff it is a polymer residue and
+                    there is exactly one C/3' flag iff the search from the end finds a residue
+   and the residues are neither lost, duplicated nor reordered by the splitting. *)
+Theorem C02_termini_general : forall o close chains out,
   termini o close chains = Done out ->
   List.concat (map (map rs_d) out) = List.concat (map snd chains) /\
-  Forall (fun c => Forall kind_ok c /\ Forall (fun r => nflag r = false) (tl c)) out.
+  Forall (seg_ok o) out /\ Forall (seg_full close) out.
 Proof. exact termini_general. Qed.
+
+Theorem C02_seg_ok_at_most_one : forall o c, seg_ok o c -> count nflag c <= 1 /\ count cflag c <= 1.
+Proof. exact seg_ok_at_most_one. Qed.
+
+(* one terminus STATE per flagged residue: whatever the patch list looks like (duplicates
+   after re-application), the prefix set_state puts into ffname is term_prefix(flags, options,
+   descriptor) *)
+Theorem C02_state_from_flags : forall o r d,
+  patch_set_ok o r -> rd_kind (rs_d r) = KAmino -> kind_ok r ->
+  ad_nterm d = rs_n r -> ad_cterm d = rs_c r -> ad_patches d = rs_patches r ->
+  spec_prefix d = term_prefix o (ad_cls d) r.
+Proof. exact state_from_flags. Qed.
+
+(* FULL statement wanted in addition: forall c in out, cyclic close c = true -> Forall unflagged c.
+   REFUTED when a split is involved: a segment that is split off AFTER phase 1 flagged the
+   whole (non-cyclic) chain keeps the N flag of its head although it is cyclic itself.
+   Replayed on the real Biomolecule.set_termini (ring of 5 with OXT on residue 5, two more
+   residues in the same chain): same flags; the pipeline then aborts ("Found gap in
+   biomolecule structure for atom OXT"), so no PQR is written.  Without hidden chain ends the
+   clause holds: C02_termini_once (chain_ok). *)
+Theorem C02_termini_cyclic_after_split_refuted :
+  exists o close chains out c, termini o close chains = Done out /\ In c out /\
+    cyclic close c = true /\ hd_nflag c = true /\ ~ Forall unflagged c.
+Proof. exact cyclic_after_split_refuted. Qed.
+
+Example C02_cyclic_split_example : show_termini (termini ex_opts (close_of [(0, 2)]) ex_cyc_split)
+  = "0:1000:NTERM:B,1:0000::B,2:0000::B|3:1000:NTERM:A,4:0100:CTERM+CTERM:A"%string.
+Proof. exact ex_cyc_split_termini. Qed.
 
 (* wrinkle: after a hidden-chain-end split both halves have one N- and one C-terminus, and
    the terminus patches of the outer residues are applied twice *)
@@ -202,8 +236,97 @@ Example C02_nonvacuous :
   show_termini (termini ex_opts ex_close ex_chains)
     = "0:1000:NTERM:A,1:0000::A,2:0100:CTERM:A,3:0000::A|10:0000::B,11:0000::B,12:0000::B|20:0010:5TERM:C,21:0001:3TERM:C"%string /\
   StatesFF_AMBER.covered <> [] /\ StatesFF_AMBER.nucleic_covered <> [] /\
-  StatesFF_PARSE.known_exceptions <> [].
-Proof. split; [exact ex_no_hidden|]. split; [exact ex_termini|]. repeat split; discriminate. Qed.
+  StatesFF_PARSE.known_exceptions <> [] /\ StatesFF_PARSE.neutral_pairs <> 0.
+Proof. split; [exact ex_no_hidden|]. split; [exact ex_termini|]. repeat split; try discriminate; vm_compute; discriminate. Qed.
+
+(* the integrality guard of main.non_trivial (sum of Residue.charge = 4-decimal roundings,
+   then utilities.noninteger_charge) never raises on residues in table states of AMBER *)
+Theorem C02_guard_never_fires_AMBER : forall units qs,
+  Forall (unit_valid StatesFF_AMBER.built StatesFF_AMBER.known_exceptions States.arows States.nrows States.wat_id States.wat_atoms) units ->
+  Permutation qs (List.concat (map unit_charges units)) ->
+  (exists k, guard_total qs = (k * SCALE)%Z) /\
+  guard_raises qs = false /\
+  (forall t, (Z.abs (t - guard_total qs) <= TOL)%Z -> guard_ok t = true).
+Proof. exact (guard_never_fires _ _ _ _ _ _ StatesFF_AMBER.state_exact StatesFF_AMBER.strand_exact StatesFF_AMBER.round4_facts StatesFF_AMBER.water_neutral). Qed.
+
+(* the integrality guard of main.non_trivial (sum of Residue.charge = 4-decimal roundings,
+   then utilities.noninteger_charge) never raises on residues in table states of CHARMM *)
+Theorem C02_guard_never_fires_CHARMM : forall units qs,
+  Forall (unit_valid StatesFF_CHARMM.built StatesFF_CHARMM.known_exceptions States.arows States.nrows States.wat_id States.wat_atoms) units ->
+  Permutation qs (List.concat (map unit_charges units)) ->
+  (exists k, guard_total qs = (k * SCALE)%Z) /\
+  guard_raises qs = false /\
+  (forall t, (Z.abs (t - guard_total qs) <= TOL)%Z -> guard_ok t = true).
+Proof. exact (guard_never_fires _ _ _ _ _ _ StatesFF_CHARMM.state_exact StatesFF_CHARMM.strand_exact StatesFF_CHARMM.round4_facts StatesFF_CHARMM.water_neutral). Qed.
+
+(* the integrality guard of main.non_trivial (sum of Residue.charge = 4-decimal roundings,
+   then utilities.noninteger_charge) never raises on residues in table states of PARSE *)
+Theorem C02_guard_never_fires_PARSE : forall units qs,
+  Forall (unit_valid StatesFF_PARSE.built StatesFF_PARSE.known_exceptions States.arows States.nrows States.wat_id States.wat_atoms) units ->
+  Permutation qs (List.concat (map unit_charges units)) ->
+  (exists k, guard_total qs = (k * SCALE)%Z) /\
+  guard_raises qs = false /\
+  (forall t, (Z.abs (t - guard_total qs) <= TOL)%Z -> guard_ok t = true).
+Proof. exact (guard_never_fires _ _ _ _ _ _ StatesFF_PARSE.state_exact StatesFF_PARSE.strand_exact StatesFF_PARSE.round4_facts StatesFF_PARSE.water_neutral). Qed.
+
+(* the integrality guard of main.non_trivial (sum of Residue.charge = 4-decimal roundings,
+   then utilities.noninteger_charge) never raises on residues in table states of PEOEPB *)
+Theorem C02_guard_never_fires_PEOEPB : forall units qs,
+  Forall (unit_valid StatesFF_PEOEPB.built StatesFF_PEOEPB.known_exceptions States.arows States.nrows States.wat_id States.wat_atoms) units ->
+  Permutation qs (List.concat (map unit_charges units)) ->
+  (exists k, guard_total qs = (k * SCALE)%Z) /\
+  guard_raises qs = false /\
+  (forall t, (Z.abs (t - guard_total qs) <= TOL)%Z -> guard_ok t = true).
+Proof. exact (guard_never_fires _ _ _ _ _ _ StatesFF_PEOEPB.state_exact StatesFF_PEOEPB.strand_exact StatesFF_PEOEPB.round4_facts StatesFF_PEOEPB.water_neutral). Qed.
+
+(* the integrality guard of main.non_trivial (sum of Residue.charge = 4-decimal roundings,
+   then utilities.noninteger_charge) never raises on residues in table states of SWANSON *)
+Theorem C02_guard_never_fires_SWANSON : forall units qs,
+  Forall (unit_valid StatesFF_SWANSON.built StatesFF_SWANSON.known_exceptions States.arows States.nrows States.wat_id States.wat_atoms) units ->
+  Permutation qs (List.concat (map unit_charges units)) ->
+  (exists k, guard_total qs = (k * SCALE)%Z) /\
+  guard_raises qs = false /\
+  (forall t, (Z.abs (t - guard_total qs) <= TOL)%Z -> guard_ok t = true).
+Proof. exact (guard_never_fires _ _ _ _ _ _ StatesFF_SWANSON.state_exact StatesFF_SWANSON.strand_exact StatesFF_SWANSON.round4_facts StatesFF_SWANSON.water_neutral). Qed.
+
+(* the integrality guard of main.non_trivial (sum of Residue.charge = 4-decimal roundings,
+   then utilities.noninteger_charge) never raises on residues in table states of TYL06 *)
+Theorem C02_guard_never_fires_TYL06 : forall units qs,
+  Forall (unit_valid StatesFF_TYL06.built StatesFF_TYL06.known_exceptions States.arows States.nrows States.wat_id States.wat_atoms) units ->
+  Permutation qs (List.concat (map unit_charges units)) ->
+  (exists k, guard_total qs = (k * SCALE)%Z) /\
+  guard_raises qs = false /\
+  (forall t, (Z.abs (t - guard_total qs) <= TOL)%Z -> guard_ok t = true).
+Proof. exact (guard_never_fires _ _ _ _ _ _ StatesFF_TYL06.state_exact StatesFF_TYL06.strand_exact StatesFF_TYL06.round4_facts StatesFF_TYL06.water_neutral). Qed.
+
+(* PARSE (the only force field main.check_options accepts --neutraln/--neutralc for): a neutral
+   terminus state carries exactly one unit less (N) / more (C) than the charged one *)
+Theorem C02_neutral_shift_PARSE : forall r1 r2 s, In r1 States.arows -> In r2 States.arows ->
+  ar_cls r1 = ar_cls r2 -> ar_state r1 = ar_state r2 -> ~ In (ar_key r2) StatesFF_PARSE.known_exceptions ->
+  shift_of (ar_term r1) (ar_term r2) = Some s ->
+  forall q1 q2, In q1 (row_charges StatesFF_PARSE.built r1) -> In q2 (row_charges StatesFF_PARSE.built r2) ->
+  q2 = (q1 + s * SCALE)%Z.
+Proof. exact (neutral_shift_table _ _ _ StatesFF_PARSE.neutral_shift). Qed.
+
+Theorem C02_neutral_absent_AMBER : forall r, In r States.arows -> is_neutral_name (ar_name r) = true ->
+  forall alt a, In alt (ar_alts r) -> In a alt -> lookup StatesFF_AMBER.built (ar_ff r) a = None.
+Proof. exact (neutral_absent_table _ _ StatesFF_AMBER.neutral_absent). Qed.
+
+Theorem C02_neutral_absent_CHARMM : forall r, In r States.arows -> is_neutral_name (ar_name r) = true ->
+  forall alt a, In alt (ar_alts r) -> In a alt -> lookup StatesFF_CHARMM.built (ar_ff r) a = None.
+Proof. exact (neutral_absent_table _ _ StatesFF_CHARMM.neutral_absent). Qed.
+
+Theorem C02_neutral_absent_PEOEPB : forall r, In r States.arows -> is_neutral_name (ar_name r) = true ->
+  forall alt a, In alt (ar_alts r) -> In a alt -> lookup StatesFF_PEOEPB.built (ar_ff r) a = None.
+Proof. exact (neutral_absent_table _ _ StatesFF_PEOEPB.neutral_absent). Qed.
+
+Theorem C02_neutral_absent_SWANSON : forall r, In r States.arows -> is_neutral_name (ar_name r) = true ->
+  forall alt a, In alt (ar_alts r) -> In a alt -> lookup StatesFF_SWANSON.built (ar_ff r) a = None.
+Proof. exact (neutral_absent_table _ _ StatesFF_SWANSON.neutral_absent). Qed.
+
+Theorem C02_neutral_absent_TYL06 : forall r, In r States.arows -> is_neutral_name (ar_name r) = true ->
+  forall alt a, In alt (ar_alts r) -> In a alt -> lookup StatesFF_TYL06.built (ar_ff r) a = None.
+Proof. exact (neutral_absent_table _ _ StatesFF_TYL06.neutral_absent). Qed.
 
 Print Assumptions C02_state_charge_AMBER.
 Print Assumptions C02_state_charge_CHARMM.
@@ -232,6 +355,22 @@ Print Assumptions C02_one_residue_chain_gets_N_only.
 Print Assumptions C02_nterm_pro_is_NPRO.
 Print Assumptions C02_assign_spec.
 Print Assumptions C02_termini_once.
-Print Assumptions C02_termini_general_partial.
+Print Assumptions C02_termini_general.
+Print Assumptions C02_seg_ok_at_most_one.
+Print Assumptions C02_state_from_flags.
+Print Assumptions C02_termini_cyclic_after_split_refuted.
+Print Assumptions C02_cyclic_split_example.
 Print Assumptions C02_hidden_end_example.
 Print Assumptions C02_nonvacuous.
+Print Assumptions C02_guard_never_fires_AMBER.
+Print Assumptions C02_guard_never_fires_CHARMM.
+Print Assumptions C02_guard_never_fires_PARSE.
+Print Assumptions C02_guard_never_fires_PEOEPB.
+Print Assumptions C02_guard_never_fires_SWANSON.
+Print Assumptions C02_guard_never_fires_TYL06.
+Print Assumptions C02_neutral_shift_PARSE.
+Print Assumptions C02_neutral_absent_AMBER.
+Print Assumptions C02_neutral_absent_CHARMM.
+Print Assumptions C02_neutral_absent_PEOEPB.
+Print Assumptions C02_neutral_absent_SWANSON.
+Print Assumptions C02_neutral_absent_TYL06.
